@@ -531,14 +531,15 @@ func (f *dataFamily) WriteRows(rows []*metric.StorageRow) error {
 		return nil
 	}
 
-	db, err := f.GetOrCreateMemoryDatabase(f.familyTime)
+	// look the memory database up and register as its writer in ONE family-mutex section:
+	// Flush swaps the database under the same mutex and only then waits for its writers.
+	db, err := f.acquireMemoryDatabase(f.familyTime)
 	if err != nil {
 		// all rows are dropped
 		f.statistics.WriteMetricFailures.Add(float64(len(rows)))
 		return err
 	}
 	verifhook.Yield("tsdb.dataFamily.writeRows.afterGetMemDB")
-	db.AcquireWrite()
 	defer func() {
 		f.statistics.WriteBatches.Incr()
 		db.CompleteWrite()
@@ -601,11 +602,30 @@ func (f *dataFamily) AckSequence(leader int32, fn func(seq int64)) {
 	}
 }
 
+// acquireMemoryDatabase returns the mutable memory database with the caller already registered as
+// one of its writers (AcquireWrite); the caller must call CompleteWrite.
+func (f *dataFamily) acquireMemoryDatabase(familyTime int64) (memdb.MemoryDatabase, error) {
+	f.mutex.Lock()
+	defer f.mutex.Unlock()
+
+	db, err := f.getOrCreateMemoryDatabase(familyTime)
+	if err != nil {
+		return nil, err
+	}
+	db.AcquireWrite()
+	return db, nil
+}
+
 // GetOrCreateMemoryDatabase returns memory database by given family time.
 func (f *dataFamily) GetOrCreateMemoryDatabase(familyTime int64) (memdb.MemoryDatabase, error) {
 	f.mutex.Lock()
 	defer f.mutex.Unlock()
 
+	return f.getOrCreateMemoryDatabase(familyTime)
+}
+
+// getOrCreateMemoryDatabase must be called with f.mutex held.
+func (f *dataFamily) getOrCreateMemoryDatabase(familyTime int64) (memdb.MemoryDatabase, error) {
 	if f.mutableMemDB == nil {
 		newDB, err := newMemoryDBFunc(&memdb.MemoryDatabaseCfg{
 			FamilyTime:    familyTime,
